@@ -1818,7 +1818,11 @@ theorem cpy_file_entry_exec (m : Mem) (bk bl bs os : Nat) (gl : List (Nat × Lis
       GlMem m' bk bl' gl' ∧ gl'.map (·.2) = Econf.addGroup (gl.map (·.2)) e.group ∧
       (∃ bg, m'.loadSlot m.length 0 = .ok (.ptr bg 0) ∧ (bg, e.group) ∈ gl') ∧
       (∀ b, b < m.length → b ≠ bk → b ≠ bl → m'[b]? = m[b]?) ∧ (bl' = bl ∨ m.length ≤ bl') ∧
-      (∀ blk, m'[bk]? = some blk → blk.writable = true) ∧ bk ≠ bl' ∧ (∀ x, x ∈ gl' → x.1 ≠ bk ∧ x.1 ≠ bl') ∧ gl'.length ≤ gl.length + 1 := by
+      (∀ blk, m'[bk]? = some blk → blk.writable = true) ∧ bk ≠ bl' ∧ (∀ x, x ∈ gl' → x.1 ≠ bk ∧ x.1 ≠ bl') ∧ gl'.length ≤ gl.length + 1 ∧
+      -- the value of the copy has a block of its own, made here: no other member of the copy and no string of the group list lives there
+      (∀ bv, m'.loadSlot m.length 2 = .ok (.ptr bv 0) → m.length < bv ∧ m'.loadSlot m.length 0 ≠ .ok (.ptr bv 0) ∧
+        m'.loadSlot m.length 1 ≠ .ok (.ptr bv 0) ∧ m'.loadSlot m.length 3 ≠ .ok (.ptr bv 0) ∧ m'.loadSlot m.length 4 ≠ .ok (.ptr bv 0) ∧
+        bl' ≠ bv ∧ ∀ x, x ∈ gl' → x.1 ≠ bv) := by
   let L := m.length
   let sl0 : List Val := List.replicate 7 .undef
   let m0 : Mem := m ++ [{ cells := [], slots := sl0 }]
@@ -1982,7 +1986,7 @@ theorem cpy_file_entry_exec (m : Mem) (bk bl bs os : Nat) (gl : List (Nat × Lis
   obtain ⟨o4, n4⟩ := ov v4' e.ca mm5 hca5 (fun b _ hne' => hfr7 b hne') (fun str => noStr mm5 _ str hL5)
   have hg7 : mm7.loadSlot L 0 = .ok (.ptr b' 0) := by simpa using ld 0 _ (by rw [hsl7]; rfl) (by simp)
   refine ⟨mm7, [.ptr bk 0, .ptr bs (os : Int), .ptr L 0], bl', gl', by simp [exec, evalE, evalL, readPlace, bind, Except.bind, L], ?_, ?_,
-    ⟨sl7, hL7, by rw [hsl7]; rfl⟩, hG7, hnames, ⟨b', hg7, hmem1⟩, hag7, ?_, ?_, hne1, hd1, hgl'len⟩
+    ⟨sl7, hL7, by rw [hsl7]; rfl⟩, hG7, hnames, ⟨b', hg7, hmem1⟩, hag7, ?_, ?_, hne1, hd1, hgl'len, ?_⟩
   · have hbl'lt : bl' < m1.length := by
       obtain ⟨gb, q1, _⟩ := hG1.arr
       exact (List.getElem?_eq_some_iff.1 q1).1
@@ -2007,6 +2011,32 @@ theorem cpy_file_entry_exec (m : Mem) (bk bl bs os : Nat) (gl : List (Nat × Lis
     have hbk1 : bk < m1.length := by omega
     rw [keep1 bk hbk1 (by omega)] at hb
     exact hkw1 blk hb
+  · -- the value's block is the one `strdup` made for it
+    intro bv hbv
+    have h2 : mm7.loadSlot L 2 = .ok v2' := by simpa using ld 2 _ (by rw [hsl7]; rfl) n2
+    have hv2 : v2' = .ptr bv 0 := by
+      have : (Except.ok v2' : R Val) = .ok (.ptr bv 0) := by rw [← h2]; exact hbv
+      injection this
+    have hge := hnew3 bv hv2
+    have hb'lt : b' < m1.length := cstr_lt hb'str
+    have hbvlt3 : bv < mm3.length := hval3.lt bv hv2
+    have hbl'lt2 : bl' < m1.length := by
+      obtain ⟨gb, q1, _⟩ := hG1.arr
+      exact (List.getElem?_eq_some_iff.1 q1).1
+    refine ⟨by omega, ?_, ?_, ?_, ?_, by omega, ?_⟩
+    · rw [hg7]; intro hh; injection hh with hh; injection hh with hh; omega
+    · have h1 : mm7.loadSlot L 1 = .ok (.ptr m1'.length 0) := by simpa using ld 1 _ (by rw [hsl7]; rfl) (by simp)
+      rw [h1]; intro hh; injection hh with hh; injection hh with hh; omega
+    · have h3 : mm7.loadSlot L 3 = .ok v3' := by simpa using ld 3 _ (by rw [hsl7]; rfl) n3
+      rw [h3]; intro hh; injection hh with hh
+      have := hnew4 bv hh; omega
+    · have h4 : mm7.loadSlot L 4 = .ok v4' := by simpa using ld 4 _ (by rw [hsl7]; rfl) n4
+      rw [h4]; intro hh; injection hh with hh
+      have := hnew5 bv hh; omega
+    · intro x hx hh
+      obtain ⟨i, hi, rfl⟩ := List.getElem_of_mem hx
+      have := cstr_lt (a4 i hi).2
+      omega
 
 /-! ## the append step of the merge: `(*fe)[idx] = cpy_file_entry(dest_kf, src)` -/
 
@@ -2057,8 +2087,11 @@ theorem fe_append_exec (m : Mem) (bk bl cell fa bs os : Nat) (gl : List (Nat × 
       (∀ b, b < m.length → b ≠ bk → b ≠ bl → m1[b]? = m[b]?) ∧
       m' = m1.set fa { ablk with slots := ablk.slots.take (7 * a) ++ ws ++ ablk.slots.drop (7 * a + 7) } ∧
       (bl' = bl ∨ m.length ≤ bl') ∧ (∀ blk, m1[bk]? = some blk → blk.writable = true) ∧ bk ≠ bl' ∧
-      (∀ x, x ∈ gl' → x.1 ≠ bk ∧ x.1 ≠ bl') ∧ gl'.length ≤ gl.length + 1 := by
-  obtain ⟨m1, loc1, bl', gl', hcp, hEnt, _, ⟨ws, hws, hwl⟩, hG1, hnames, _, hfr, hblor, hkw1, hne1, hd1, hgll⟩ :=
+      (∀ x, x ∈ gl' → x.1 ≠ bk ∧ x.1 ≠ bl') ∧ gl'.length ≤ gl.length + 1 ∧
+      (∀ bv, m1.loadSlot m.length 2 = .ok (.ptr bv 0) → m.length < bv ∧ m1.loadSlot m.length 0 ≠ .ok (.ptr bv 0) ∧
+        m1.loadSlot m.length 1 ≠ .ok (.ptr bv 0) ∧ m1.loadSlot m.length 3 ≠ .ok (.ptr bv 0) ∧ m1.loadSlot m.length 4 ≠ .ok (.ptr bv 0) ∧
+        bl' ≠ bv ∧ ∀ x, x ∈ gl' → x.1 ≠ bv) := by
+  obtain ⟨m1, loc1, bl', gl', hcp, hEnt, _, ⟨ws, hws, hwl⟩, hG1, hnames, _, hfr, hblor, hkw1, hne1, hd1, hgll, hfresh⟩ :=
     cpy_file_entry_exec m bk bl bs os gl e hG hE hkw hne hd hsmall hline fuel hf
   have hargs : evalArgs (.cons (.load (.var 0) .ptr) (.cons srcE .nil)) { mem := m, loc := loc } =
       .ok ([.ptr bk 0, .ptr bs (os : Int)], { mem := m, loc := loc }) := by
@@ -2074,7 +2107,7 @@ theorem fe_append_exec (m : Mem) (bk bl cell fa bs os : Nat) (gl : List (Nat × 
   have hst : m1.storeWords fa ((7 * a : Nat) : Int) ws = .ok (m1.set fa { ablk with slots := ablk.slots.take (7 * a) ++ ws ++ ablk.slots.drop (7 * a + 7) }) := by
     have := storeWords_of (m := m1) (b := fa) (o := 7 * a) ws ha1' ha2 ha3 (by rw [hwl, ha4]; omega)
     simpa [hwl] using this
-  refine ⟨m1, _, bl', gl', ws, ?_, hEnt, hws, hwl, hG1, hnames, hfr, rfl, hblor, hkw1, hne1, hd1, hgll⟩
+  refine ⟨m1, _, bl', gl', ws, ?_, hEnt, hws, hwl, hG1, hnames, hfr, rfl, hblor, hkw1, hne1, hd1, hgll, hfresh⟩
   rw [exec_seq_normal hinl]
   have hcl : m1.loadSlot cell 0 = .ok (.ptr fa 0) := by simpa using loadSlot_of (i := 0) hc1' hc2 hc3 (by simp)
   have hl1' : (loc.set t (.ptr m.length 0))[1]? = some (.ptr cell 0) := by rw [List.getElem?_set_ne ht1]; exact hl1
@@ -2186,8 +2219,11 @@ theorem C_fe_append (m : Mem) (bk bl cell fa bs os : Nat) (gl : List (Nat × Lis
         ∀ i, (i < 7 * a ∨ 7 * a + 7 ≤ i) → ablk'.slots[i]? = ablk.slots[i]?) ∧
       m.length ≤ m'.length ∧
       (bl' = bl ∨ m.length ≤ bl') ∧ (∀ blk, m'[bk]? = some blk → blk.writable = true) ∧ bk ≠ bl' ∧
-      (∀ x, x ∈ gl' → x.1 ≠ bk ∧ x.1 ≠ bl') ∧ gl'.length ≤ gl.length + 1 := by
-  obtain ⟨m1, m', bl', gl', ws, hex, hEnt, hws, hwl, hG1, hnames, hfr, hm', hblor, hkw1, hne1, hd1, hgll⟩ :=
+      (∀ x, x ∈ gl' → x.1 ≠ bk ∧ x.1 ≠ bl') ∧ gl'.length ≤ gl.length + 1 ∧
+      -- the value of the new element has a block of its own, made in this step
+      (∀ bv, m'.loadSlot fa (((7 * a : Nat) : Int) + 2) = .ok (.ptr bv 0) → m.length < bv ∧
+        (∀ k : Nat, k < 5 → k ≠ 2 → m'.loadSlot fa (((7 * a : Nat) : Int) + (k : Int)) ≠ .ok (.ptr bv 0)) ∧ bl' ≠ bv ∧ ∀ x, x ∈ gl' → x.1 ≠ bv) := by
+  obtain ⟨m1, m', bl', gl', ws, hex, hEnt, hws, hwl, hG1, hnames, hfr, hm', hblor, hkw1, hne1, hd1, hgll, hfresh⟩ :=
     fe_append_exec m bk bl cell fa bs os gl e loc loc2 srcE idxE t a cap hG hE hkw hne hd hsmall hline fuel hf hl0 hl1 ht ht1 hsrc hidx hl2t
       cblk hc1 hc2 hc3 hcne ablk ha1 ha2 ha3 ha4 hane hacap
   have halt : fa < m.length := (List.getElem?_eq_some_iff.1 ha1).1
@@ -2215,7 +2251,34 @@ theorem C_fe_append (m : Mem) (bk bl cell fa bs os : Nat) (gl : List (Nat × Lis
     obtain ⟨gb, a1, a2, a3, a4⟩ := hG1.arr
     exact noStr _ (hh ▸ (a4 i hi).2))
   refine ⟨m', bl', gl', hex, hmoved, hG', hnames, fun b hb h1 h2 h3 => by rw [hother b h3, hfr b hb h1 h2], ?_, by rw [hm']; simp; omega,
-    hblor, fun blk hb => hkw1 blk (by rw [← hother bk (Ne.symm hane.1)]; exact hb), hne1, hd1, hgll⟩
+    hblor, fun blk hb => hkw1 blk (by rw [← hother bk (Ne.symm hane.1)]; exact hb), hne1, hd1, hgll, ?_⟩
+  rotate_left
+  · -- a word of the new element is the word of the copy it came from
+    have htk : (ablk.slots.take (7 * a)).length = 7 * a := by simp; omega
+    have hfa' : m'[fa]? = some { ablk with slots := ablk.slots.take (7 * a) ++ ws ++ ablk.slots.drop (7 * a + 7) } := by
+      rw [hm']; simp [(List.getElem?_eq_some_iff.1 ha1').1]
+    have back : ∀ (k : Nat) (w : Val), k < 7 → m'.loadSlot fa (((7 * a : Nat) : Int) + (k : Int)) = .ok w → m1.loadSlot m.length (k : Int) = .ok w := by
+      intro k w hk hl
+      have hl' : m'.loadSlot fa ((7 * a + k : Nat) : Int) = .ok w := by
+        have : ((7 * a + k : Nat) : Int) = ((7 * a : Nat) : Int) + (k : Int) := by omega
+        rw [this]; exact hl
+      obtain ⟨s1, s2, _⟩ := loadSlot_inv hl' hfa'
+      have s1' : ws[k]? = some w := by
+        have : (ablk.slots.take (7 * a) ++ ws ++ ablk.slots.drop (7 * a + 7))[7 * a + k]? = ws[k]? := by
+          rw [List.append_assoc, List.getElem?_append_right (by omega), htk, Nat.add_sub_cancel_left, List.getElem?_append_left (by omega)]
+        rw [← this]; exact s1
+      exact loadSlot_of hws rfl s1' s2
+    intro bv hbv
+    obtain ⟨f1, f2, f3, f4, f5, f7, f6⟩ := hfresh bv (by simpa using back 2 _ (by omega) hbv)
+    refine ⟨f1, ?_, f7, f6⟩
+    intro k hk hk2 hl
+    have := back k _ (by omega) hl
+    have hk' : k = 0 ∨ k = 1 ∨ k = 3 ∨ k = 4 := by omega
+    rcases hk' with rfl | rfl | rfl | rfl
+    · exact f2 (by simpa using this)
+    · exact f3 (by simpa using this)
+    · exact f4 (by simpa using this)
+    · exact f5 (by simpa using this)
   have htk : (ablk.slots.take (7 * a)).length = 7 * a := by simp; omega
   refine ⟨{ ablk with slots := ablk.slots.take (7 * a) ++ ws ++ ablk.slots.drop (7 * a + 7) }, by rw [hm']; simp [(List.getElem?_eq_some_iff.1 ha1').1],
     ha2, ha3, ha5, by simp only [List.length_append, htk, hwl, List.length_drop, ha4]; omega, ?_⟩
